@@ -69,6 +69,10 @@ claimed = {
    text="F-mock (response field kind x cardinality x example shape) and the core services are generated with generate_mock=true; the unmodified output is compiled and vetted; in an executed copy the mock's randomness is owned by the explorer (math/rand and crypto/rand redirected), every sequence of random choices is enumerated, and each answer is checked: no error on a valid request, serialisable by the generated server, valid against the published response schema, declared examples used.",
    note="Trusted: the two-line import redirection of the executed copy; C06's schema oracle. Unparsable examples are judged only when at least one example parses.",
    tech="exhaustive enumeration of schemas and of the mock's random choice sequences (RNG owned, not sampled)", ref="DESIGN.md section 8 C20"),
+ "C17": dict(
+   text="Stateless model checking of the real generated code under a controlled scheduler: the emitted server and client files are instrumented at source level (sync -> scheduler-aware shim, a scheduling point before every statement touching a written shared location), and every interleaving of 2 and 3 concurrent calls with at most 2 (quick) / 3 (thorough) preemptions is executed (DFS over choice prefixes, replay-deterministic), for every unordered pair of a per-unit call alphabet and for triples; each execution is checked for co-enabled conflicting accesses (data race), deadlock, panic and for per-call observations equal to the isolated execution; plus all call sequences up to depth 2/3 versus isolated execution. A free-running -race build of the same bodies is run as a supplementary (sampled) pass.",
+   note="Granularity: statements of the emitted files; third-party libraries and sub-statement memory-model effects are not modelled (the -race pass samples those). Locations with no write site anywhere in the emitted code get no scheduling points (they cannot race); the instrumenter lists what it instrumented in the evidence.",
+   tech="stateless model checking: controlled scheduler with preemption-bounded DFS over real generated code", ref="DESIGN.md section 8 C17 and appendix C"),
 }
 NA_REASON = "check not built yet (build in progress; see DESIGN.md section 14)"
 checks = []
